@@ -85,8 +85,26 @@ def gen(rng, prop, job):
     return m3_lock.gen_scenario(rng, kind)
 
 
+def gen_small(rng, prop, job):
+    """two or three threads, one block each: for the systematic (context-bounded) exploration"""
+    from . import m3_lock
+    for _ in range(50):
+        sc = m3_lock.gen_scenario(rng, "idle" if (prop == "C20" and rng.random() < 0.4) else "terminating")
+        if len(sc["threads"]) <= 3:
+            break
+    sc["threads"] = [t[:1] for t in sc["threads"][:3]]
+    used = set(b["till"] for t in sc["threads"] for b in t if b.get("till") is not None)
+    sc["fire"] = [x for x in sc["fire"] if x in used]
+    return sc
+
+
 def make_jobs(prop, tier, seed):
     jobs = plug.std_jobs(prop, tier, seed, "m3", n_quick=16, per_quick=8, schedules=6)
+    if tier == "thorough":
+        for j in range(24):
+            jobs.append({"kind": "pbound", "prop": prop, "seed": seed * 104729 + j, "k": 2, "budget": 2000})
+    else:
+        jobs.append({"kind": "pbound", "prop": prop, "seed": seed * 104729, "k": 1, "budget": 200})
     if prop == "C20":
         for j in range(4 if tier == "quick" else 24):
             jobs.append({"kind": "explore", "side": "queue", "prop": prop, "seed": seed * 32452843 + j, "scenarios": 8, "schedules": 6})
@@ -105,6 +123,8 @@ def _is_queue(job):
 
 
 def run_job(job):
+    if job["kind"] == "pbound":
+        return plug.pbound_job(MODEL, gen_small, job)
     if _is_queue(job):
         return plug.std_job(MODELQ, genq, job)
     return plug.std_job(MODEL, gen, job)
